@@ -108,7 +108,12 @@ impl PartialOrd for UserBounds {
     /// compare `-1` with `3` without kwowing how many parts are there).
     /// Check with UserBounds.is_sortable before comparing.
     fn partial_cmp(&self, other: &Self) -> Option<Ordering> {
-        self.r.partial_cmp(&other.l)
+        // an open left side starts from the first part
+        let other_l = match other.l {
+            Side::Continue => Side::Some(1),
+            l => l,
+        };
+        self.r.partial_cmp(&other_l)
     }
 }
 
